@@ -4,337 +4,597 @@
 
 package interp
 
-// Emulated functions that we cannot interpret because they are
-// external or because they use "unsafe" or "reflect" operations.
+// Engine intrinsics: functions that have no interpretable body (assembly,
+// unsafe, runtime hooks, reflection-heavy formatting) are given
+// semantics-preserving implementations here. The table is printed into the
+// evidence (RunResult.Externals) so the trusted boundary is explicit.
 
 import (
-	"bytes"
+	"fmt"
+	"go/token"
+	"go/types"
 	"math"
-	"os"
-	"runtime"
-	"sort"
 	"strconv"
 	"strings"
-	"time"
-	"unicode/utf8"
+
+	"golang.org/x/tools/go/ssa"
+
+	"gosym/smt"
 )
 
 type externalFn func(fr *frame, args []value) value
 
-// TODO(adonovan): fix: reflect.Value abstracts an lvalue or an
-// rvalue; Set() causes mutations that can be observed via aliases.
-// We have not captured that correctly here.
+// useBody is returned by an external that declines (e.g. symbolic arguments):
+// the function's real SSA body is executed instead.
+type useBodyT struct{}
+
+var useBody = useBodyT{}
 
 // Key strings are from Function.String().
 var externals = make(map[string]externalFn)
 
 func init() {
-	// That little dot ۰ is an Arabic zero numeral (U+06F0), categories [Nd].
 	for k, v := range map[string]externalFn{
-		"(reflect.Value).Bool":            ext۰reflect۰Value۰Bool,
-		"(reflect.Value).CanAddr":         ext۰reflect۰Value۰CanAddr,
-		"(reflect.Value).CanInterface":    ext۰reflect۰Value۰CanInterface,
-		"(reflect.Value).Elem":            ext۰reflect۰Value۰Elem,
-		"(reflect.Value).Field":           ext۰reflect۰Value۰Field,
-		"(reflect.Value).Float":           ext۰reflect۰Value۰Float,
-		"(reflect.Value).Index":           ext۰reflect۰Value۰Index,
-		"(reflect.Value).Int":             ext۰reflect۰Value۰Int,
-		"(reflect.Value).Interface":       ext۰reflect۰Value۰Interface,
-		"(reflect.Value).IsNil":           ext۰reflect۰Value۰IsNil,
-		"(reflect.Value).IsValid":         ext۰reflect۰Value۰IsValid,
-		"(reflect.Value).Kind":            ext۰reflect۰Value۰Kind,
-		"(reflect.Value).Len":             ext۰reflect۰Value۰Len,
-		"(reflect.Value).MapIndex":        ext۰reflect۰Value۰MapIndex,
-		"(reflect.Value).MapKeys":         ext۰reflect۰Value۰MapKeys,
-		"(reflect.Value).NumField":        ext۰reflect۰Value۰NumField,
-		"(reflect.Value).NumMethod":       ext۰reflect۰Value۰NumMethod,
-		"(reflect.Value).Pointer":         ext۰reflect۰Value۰Pointer,
-		"(reflect.Value).Set":             ext۰reflect۰Value۰Set,
-		"(reflect.Value).String":          ext۰reflect۰Value۰String,
-		"(reflect.Value).Type":            ext۰reflect۰Value۰Type,
-		"(reflect.Value).Uint":            ext۰reflect۰Value۰Uint,
-		"(reflect.error).Error":           ext۰reflect۰error۰Error,
-		"(reflect.rtype).Bits":            ext۰reflect۰rtype۰Bits,
-		"(reflect.rtype).Elem":            ext۰reflect۰rtype۰Elem,
-		"(reflect.rtype).Field":           ext۰reflect۰rtype۰Field,
-		"(reflect.rtype).In":              ext۰reflect۰rtype۰In,
-		"(reflect.rtype).Kind":            ext۰reflect۰rtype۰Kind,
-		"(reflect.rtype).NumField":        ext۰reflect۰rtype۰NumField,
-		"(reflect.rtype).NumIn":           ext۰reflect۰rtype۰NumIn,
-		"(reflect.rtype).NumMethod":       ext۰reflect۰rtype۰NumMethod,
-		"(reflect.rtype).NumOut":          ext۰reflect۰rtype۰NumOut,
-		"(reflect.rtype).Out":             ext۰reflect۰rtype۰Out,
-		"(reflect.rtype).Size":            ext۰reflect۰rtype۰Size,
-		"(reflect.rtype).String":          ext۰reflect۰rtype۰String,
-		"bytes.Equal":                     ext۰bytes۰Equal,
-		"bytes.IndexByte":                 ext۰bytes۰IndexByte,
-		"fmt.Sprint":                      ext۰fmt۰Sprint,
-		"math.Abs":                        ext۰math۰Abs,
-		"math.Copysign":                   ext۰math۰Copysign,
-		"math.Exp":                        ext۰math۰Exp,
-		"math.Float32bits":                ext۰math۰Float32bits,
-		"math.Float32frombits":            ext۰math۰Float32frombits,
-		"math.Float64bits":                ext۰math۰Float64bits,
-		"math.Float64frombits":            ext۰math۰Float64frombits,
-		"math.Inf":                        ext۰math۰Inf,
-		"math.IsNaN":                      ext۰math۰IsNaN,
-		"math.Ldexp":                      ext۰math۰Ldexp,
-		"math.Log":                        ext۰math۰Log,
-		"math.Min":                        ext۰math۰Min,
-		"math.NaN":                        ext۰math۰NaN,
-		"math.Sqrt":                       ext۰math۰Sqrt,
-		"os.Exit":                         ext۰os۰Exit,
-		"os.Getenv":                       ext۰os۰Getenv,
-		"reflect.New":                     ext۰reflect۰New,
-		"reflect.SliceOf":                 ext۰reflect۰SliceOf,
-		"reflect.TypeOf":                  ext۰reflect۰TypeOf,
-		"reflect.ValueOf":                 ext۰reflect۰ValueOf,
-		"reflect.Zero":                    ext۰reflect۰Zero,
-		"runtime.Breakpoint":              ext۰runtime۰Breakpoint,
-		"runtime.GC":                      ext۰runtime۰GC,
-		"runtime.GOMAXPROCS":              ext۰runtime۰GOMAXPROCS,
-		"runtime.GOROOT":                  ext۰runtime۰GOROOT,
-		"runtime.Goexit":                  ext۰runtime۰Goexit,
-		"runtime.Gosched":                 ext۰runtime۰Gosched,
-		"runtime.NumCPU":                  ext۰runtime۰NumCPU,
-		"sort.Float64s":                   ext۰sort۰Float64s,
-		"sort.Ints":                       ext۰sort۰Ints,
-		"sort.Strings":                    ext۰sort۰Strings,
-		"strconv.Atoi":                    ext۰strconv۰Atoi,
-		"strconv.Itoa":                    ext۰strconv۰Itoa,
-		"strconv.FormatFloat":             ext۰strconv۰FormatFloat,
-		"strings.Count":                   ext۰strings۰Count,
-		"strings.EqualFold":               ext۰strings۰EqualFold,
-		"strings.Index":                   ext۰strings۰Index,
-		"strings.IndexByte":               ext۰strings۰IndexByte,
-		"strings.Replace":                 ext۰strings۰Replace,
-		"strings.ToLower":                 ext۰strings۰ToLower,
-		"time.Sleep":                      ext۰time۰Sleep,
-		"unicode/utf8.DecodeRuneInString": ext۰unicode۰utf8۰DecodeRuneInString,
+		"(reflect.Value).Bool":         ext۰reflect۰Value۰Bool,
+		"(reflect.Value).CanAddr":      ext۰reflect۰Value۰CanAddr,
+		"(reflect.Value).CanInterface": ext۰reflect۰Value۰CanInterface,
+		"(reflect.Value).Elem":         ext۰reflect۰Value۰Elem,
+		"(reflect.Value).Field":        ext۰reflect۰Value۰Field,
+		"(reflect.Value).Float":        ext۰reflect۰Value۰Float,
+		"(reflect.Value).Index":        ext۰reflect۰Value۰Index,
+		"(reflect.Value).Int":          ext۰reflect۰Value۰Int,
+		"(reflect.Value).Interface":    ext۰reflect۰Value۰Interface,
+		"(reflect.Value).IsNil":        ext۰reflect۰Value۰IsNil,
+		"(reflect.Value).IsValid":      ext۰reflect۰Value۰IsValid,
+		"(reflect.Value).Kind":         ext۰reflect۰Value۰Kind,
+		"(reflect.Value).Len":          ext۰reflect۰Value۰Len,
+		"(reflect.Value).NumField":     ext۰reflect۰Value۰NumField,
+		"(reflect.Value).NumMethod":    ext۰reflect۰Value۰NumMethod,
+		"(reflect.Value).Pointer":      ext۰reflect۰Value۰Pointer,
+		"(reflect.Value).Set":          ext۰reflect۰Value۰Set,
+		"(reflect.Value).String":       ext۰reflect۰Value۰String,
+		"(reflect.Value).Type":         ext۰reflect۰Value۰Type,
+		"(reflect.Value).Uint":         ext۰reflect۰Value۰Uint,
+		"(reflect.error).Error":        ext۰reflect۰error۰Error,
+		"(reflect.rtype).Bits":         ext۰reflect۰rtype۰Bits,
+		"(reflect.rtype).Elem":         ext۰reflect۰rtype۰Elem,
+		"(reflect.rtype).Field":        ext۰reflect۰rtype۰Field,
+		"(reflect.rtype).In":           ext۰reflect۰rtype۰In,
+		"(reflect.rtype).Kind":         ext۰reflect۰rtype۰Kind,
+		"(reflect.rtype).NumField":     ext۰reflect۰rtype۰NumField,
+		"(reflect.rtype).NumIn":        ext۰reflect۰rtype۰NumIn,
+		"(reflect.rtype).NumMethod":    ext۰reflect۰rtype۰NumMethod,
+		"(reflect.rtype).NumOut":       ext۰reflect۰rtype۰NumOut,
+		"(reflect.rtype).Out":          ext۰reflect۰rtype۰Out,
+		"(reflect.rtype).Size":         ext۰reflect۰rtype۰Size,
+		"(reflect.rtype).String":       ext۰reflect۰rtype۰String,
+		"reflect.New":                  ext۰reflect۰New,
+		"reflect.SliceOf":              ext۰reflect۰SliceOf,
+		"reflect.TypeOf":               ext۰reflect۰TypeOf,
+		"reflect.ValueOf":              ext۰reflect۰ValueOf,
+		"reflect.Zero":                 ext۰reflect۰Zero,
+
+		// math
+		"math.Float32bits":     extFloat32bits,
+		"math.Float32frombits": extFloat32frombits,
+		"math.Float64bits":     extFloat64bits,
+		"math.Float64frombits": extFloat64frombits,
+
+		// formatting: opaque
+		"fmt.Sprintf":           extSprintf,
+		"fmt.Errorf":            extErrorf,
+		"fmt.Sprint":            extSprint,
+		"fmt.Sprintln":          extSprint,
+		"fmt.Fprintf":           extNop,
+		"fmt.Fprint":            extNop,
+		"fmt.Fprintln":          extNop,
+		"fmt.Printf":            extNop,
+		"fmt.Println":           extNop,
+		"fmt.Print":             extNop,
+		"log.Printf":            extNop,
+		"log.Println":           extNop,
+		"log.Print":             extNop,
+		"log.Output":            extNilError,
+		"(*log.Logger).Printf":  extNop,
+		"(*log.Logger).Println": extNop,
+		"(*log.Logger).Output":  extNilError,
+		"runtime/debug.Stack":   func(fr *frame, args []value) value { return strToBytes("<stack>") },
+		"runtime.Callers":       func(fr *frame, args []value) value { return 0 },
+		"runtime.Gosched":       extNop,
+		"runtime.KeepAlive":     extNop,
+		"runtime.SetFinalizer":  extNop,
+		"os.Exit":               func(fr *frame, args []value) value { panic(exitPanic(asInt64(args[0]))) },
+		"os.Getenv":             func(fr *frame, args []value) value { return "" },
+
+		// sync (single-threaded semantics)
+		"(*sync.Once).Do":           extOnceDo,
+		"(*sync.Pool).Get":          extPoolGet,
+		"(*sync.Pool).Put":          extNop,
+		"(*sync.Mutex).Lock":        extNop,
+		"(*sync.Mutex).Unlock":      extNop,
+		"(*sync.Mutex).TryLock":     func(fr *frame, args []value) value { return true },
+		"(*sync.RWMutex).Lock":      extNop,
+		"(*sync.RWMutex).Unlock":    extNop,
+		"(*sync.RWMutex).RLock":     extNop,
+		"(*sync.RWMutex).RUnlock":   extNop,
+		"(*sync.Map).Load":          extSyncMapLoad,
+		"(*sync.Map).Store":         extSyncMapStore,
+		"(*sync.Map).LoadOrStore":   extSyncMapLoadOrStore,
+		"(*sync.Map).Delete":        extSyncMapDelete,
+		"(*sync.Map).Range":         extSyncMapRange,
+		"(*sync.Map).LoadAndDelete": extSyncMapLoadAndDelete,
+
+		// sync/atomic
+		"sync/atomic.LoadInt32":             extAtomicLoad,
+		"sync/atomic.LoadInt64":             extAtomicLoad,
+		"sync/atomic.LoadUint32":            extAtomicLoad,
+		"sync/atomic.LoadUint64":            extAtomicLoad,
+		"sync/atomic.LoadUintptr":           extAtomicLoad,
+		"sync/atomic.LoadPointer":           extAtomicLoad,
+		"sync/atomic.StoreInt32":            extAtomicStore,
+		"sync/atomic.StoreInt64":            extAtomicStore,
+		"sync/atomic.StoreUint32":           extAtomicStore,
+		"sync/atomic.StoreUint64":           extAtomicStore,
+		"sync/atomic.StoreUintptr":          extAtomicStore,
+		"sync/atomic.StorePointer":          extAtomicStore,
+		"sync/atomic.AddInt32":              extAtomicAdd,
+		"sync/atomic.AddInt64":              extAtomicAdd,
+		"sync/atomic.AddUint32":             extAtomicAdd,
+		"sync/atomic.AddUint64":             extAtomicAdd,
+		"sync/atomic.CompareAndSwapInt32":   extAtomicCAS,
+		"sync/atomic.CompareAndSwapInt64":   extAtomicCAS,
+		"sync/atomic.CompareAndSwapUint32":  extAtomicCAS,
+		"sync/atomic.CompareAndSwapUint64":  extAtomicCAS,
+		"sync/atomic.CompareAndSwapPointer": extAtomicCAS,
+		"sync/atomic.SwapInt32":             extAtomicSwap,
+		"sync/atomic.SwapInt64":             extAtomicSwap,
+		"sync/atomic.SwapUint32":            extAtomicSwap,
+		"sync/atomic.SwapUint64":            extAtomicSwap,
+
+		// sort
+		"sort.Slice":       extSortSlice,
+		"sort.SliceStable": extSortSlice,
+
+		// strings / bytes kernels
+		"(*strings.Builder).String":                    extBuilderString,
+		"(*strings.Builder).copyCheck":                 extNop,
+		"strings.Clone":                                func(fr *frame, args []value) value { return args[0] },
+		"strings.Index":                                extStringsIndex,
+		"strings.IndexByte":                            extStringsIndexByte,
+		"strings.Count":                                extUseBodyIfSym(func(fr *frame, args []value) value { return strings.Count(args[0].(string), args[1].(string)) }),
+		"bytes.IndexByte":                              extBytesIndexByte,
+		"internal/bytealg.IndexByte":                   extBytesIndexByte,
+		"internal/bytealg.IndexByteString":             extStringsIndexByte,
+		"internal/bytealg.IndexString":                 extStringsIndex,
+		"internal/bytealg.MakeNoZero":                  extMakeNoZero,
+		"internal/bytealg.CountString":                 extCountString,
+		"internal/bytealg.Count":                       extCountBytes,
+		"internal/stringslite.Index":                   extStringsIndex,
+		"internal/stringslite.IndexByte":               extStringsIndexByte,
+		"internal/abi.NoEscape":                        func(fr *frame, args []value) value { return args[0] },
+		"github.com/mailru/easyjson/jlexer.bytesToStr": func(fr *frame, args []value) value { return bytesToStr(args[0].([]value)) },
+		"github.com/mailru/easyjson/jlexer.strToBytes": func(fr *frame, args []value) value { return strToBytes(args[0]) },
+
+		// strconv fast paths on concrete arguments
+		"strconv.FormatFloat": extUseBodyIfSym(func(fr *frame, args []value) value {
+			return strconv.FormatFloat(args[0].(float64), args[1].(byte), args[2].(int), args[3].(int))
+		}),
+		"strconv.AppendFloat": extUseBodyIfSym(func(fr *frame, args []value) value {
+			b := strconv.AppendFloat(nil, args[1].(float64), args[2].(byte), args[3].(int), args[4].(int))
+			return append(args[0].([]value), strToBytes(string(b))...)
+		}),
+		"strconv.Itoa": extUseBodyIfSym(func(fr *frame, args []value) value { return strconv.Itoa(args[0].(int)) }),
+		"strconv.FormatInt": extUseBodyIfSym(func(fr *frame, args []value) value {
+			return strconv.FormatInt(args[0].(int64), args[1].(int))
+		}),
+		"strconv.ParseFloat": extParseFloat,
 	} {
 		externals[k] = v
 	}
 }
 
-func ext۰bytes۰Equal(fr *frame, args []value) value {
-	// func Equal(a, b []byte) bool
-	a := args[0].([]value)
-	b := args[1].([]value)
-	if len(a) != len(b) {
-		return false
-	}
-	for i := range a {
-		if a[i] != b[i] {
-			return false
+func extNop(fr *frame, args []value) value { return nil }
+
+func extNilError(fr *frame, args []value) value { return iface{} }
+
+func extUseBodyIfSym(f externalFn) externalFn {
+	return func(fr *frame, args []value) value {
+		for _, a := range args {
+			if deepSym(a) {
+				return useBody
+			}
 		}
+		return f(fr, args)
 	}
-	return true
 }
 
-func ext۰bytes۰IndexByte(fr *frame, args []value) value {
-	// func IndexByte(s []byte, c byte) int
-	s := args[0].([]value)
-	c := args[1].(byte)
-	for i, b := range s {
-		if b.(byte) == c {
-			return i
+// deepSym reports whether v is or (shallowly, for slices) contains a symbolic value.
+func deepSym(v value) bool {
+	switch v := v.(type) {
+	case sym, *symstr:
+		return true
+	case []value:
+		for _, e := range v {
+			if isSym(e) {
+				return true
+			}
+		}
+	}
+	return false
+}
+
+// ---------------------------------------------------------------------------
+// math
+
+func extFloat64bits(fr *frame, args []value) value {
+	if s, ok := args[0].(sym); ok {
+		c := math.Float64bits(s.c.(float64))
+		if s.t.Op == "(_ to_fp 11 53)" && len(s.t.Args) == 1 {
+			return mkSym(c, s.t.Args[0]) // exact inverse of Float64frombits
+		}
+		return mkSym(c, smt.App("fp.to_ieee_bv", smt.BV64, s.t))
+	}
+	return math.Float64bits(args[0].(float64))
+}
+
+func extFloat64frombits(fr *frame, args []value) value {
+	if s, ok := args[0].(sym); ok {
+		return mkSym(math.Float64frombits(s.c.(uint64)), smt.App("(_ to_fp 11 53)", smt.FP64, s.t))
+	}
+	return math.Float64frombits(args[0].(uint64))
+}
+
+func extFloat32bits(fr *frame, args []value) value {
+	if s, ok := args[0].(sym); ok {
+		c := math.Float32bits(s.c.(float32))
+		if s.t.Op == "(_ to_fp 8 24)" && len(s.t.Args) == 1 {
+			return mkSym(c, s.t.Args[0])
+		}
+		return mkSym(c, smt.App("fp.to_ieee_bv", smt.BV32, s.t))
+	}
+	return math.Float32bits(args[0].(float32))
+}
+
+func extFloat32frombits(fr *frame, args []value) value {
+	if s, ok := args[0].(sym); ok {
+		return mkSym(math.Float32frombits(s.c.(uint32)), smt.App("(_ to_fp 8 24)", smt.FP32, s.t))
+	}
+	return math.Float32frombits(args[0].(uint32))
+}
+
+// extParseFloat: concrete input -> native; symbolic input -> real body.
+func extParseFloat(fr *frame, args []value) value {
+	s, ok := args[0].(string)
+	if !ok || isSym(args[1]) {
+		return useBody
+	}
+	f, err := strconv.ParseFloat(s, args[1].(int))
+	if err != nil {
+		// let the real body build the *NumError
+		return useBody
+	}
+	return tuple{f, iface{}}
+}
+
+// ---------------------------------------------------------------------------
+// opaque formatting
+
+func (i *interpreter) nativeArg(v value) interface{} {
+	switch v := v.(type) {
+	case iface:
+		if v.t == nil {
+			return nil
+		}
+		if isSym(v.v) {
+			return "<sym>"
+		}
+		if s, ok := i.textOf(v); ok {
+			return s
+		}
+		return i.nativeArg(v.v)
+	case sym, *symstr:
+		return "<sym>"
+	case bool, int, int8, int16, int32, int64, uint, uint8, uint16, uint32, uint64, uintptr, float32, float64, string:
+		return v
+	case []value:
+		if len(v) > 0 {
+			if _, ok := conc(v[0]).(byte); ok {
+				b := make([]byte, len(v))
+				for k := range v {
+					c, ok := v[k].(byte)
+					if !ok {
+						return "<sym>"
+					}
+					b[k] = c
+				}
+				return b
+			}
+		}
+		out := make([]interface{}, len(v))
+		for k := range v {
+			out[k] = i.nativeArg(v[k])
+		}
+		return out
+	case *value:
+		if v == nil {
+			return nil
+		}
+		return fmt.Sprintf("%p", v)
+	case nil:
+		return nil
+	}
+	return fmt.Sprintf("<%T>", v)
+}
+
+func (i *interpreter) formatOpaque(format value, args value) string {
+	f, _ := strParts(format)
+	f = strings.ReplaceAll(f, "%w", "%v")
+	var nat []interface{}
+	if args != nil {
+		for _, a := range args.([]value) {
+			nat = append(nat, i.nativeArg(a))
+		}
+	}
+	return fmt.Sprintf(f, nat...)
+}
+
+func extSprintf(fr *frame, args []value) value {
+	return fr.i.formatOpaque(args[0], args[1])
+}
+
+func extErrorf(fr *frame, args []value) value {
+	return iface{errorType, fr.i.formatOpaque(args[0], args[1])}
+}
+
+func extSprint(fr *frame, args []value) value {
+	var nat []interface{}
+	for _, a := range args[0].([]value) {
+		nat = append(nat, fr.i.nativeArg(a))
+	}
+	return fmt.Sprint(nat...)
+}
+
+// ---------------------------------------------------------------------------
+// sync
+
+func extOnceDo(fr *frame, args []value) value {
+	// type Once struct { done atomic.Uint32; m Mutex }  (field order differs across Go versions)
+	p := args[0].(*value)
+	st := (*p).(structure)
+	// find the "done" field: it is the first field that is an atomic struct or uint32
+	key := p
+	if fr.i.onceDone == nil {
+		fr.i.onceDone = map[*value]bool{}
+	}
+	_ = st
+	if fr.i.onceDone[key] {
+		return nil
+	}
+	fr.i.onceDone[key] = true
+	call(fr.i, fr, token.NoPos, args[1], nil)
+	return nil
+}
+
+func extPoolGet(fr *frame, args []value) value {
+	// always miss: call New if set
+	p := args[0].(*value)
+	st := (*p).(structure)
+	newFn := st[len(st)-1]
+	switch f := newFn.(type) {
+	case *ssa.Function:
+		if f == nil {
+			return iface{}
+		}
+	case nil:
+		return iface{}
+	}
+	return call(fr.i, fr, token.NoPos, newFn, nil)
+}
+
+func (i *interpreter) syncMap(p value) *smap {
+	key := p.(*value)
+	if i.syncMaps == nil {
+		i.syncMaps = map[*value]*smap{}
+	}
+	m := i.syncMaps[key]
+	if m == nil {
+		m = makeMap(types.NewInterfaceType(nil, nil).Complete(), 0).(*smap)
+		i.syncMaps[key] = m
+	}
+	return m
+}
+
+func extSyncMapLoad(fr *frame, args []value) value {
+	v, ok := fr.i.syncMap(args[0]).lookup(fr.i, args[1])
+	if !ok {
+		return tuple{iface{}, false}
+	}
+	return tuple{v, true}
+}
+
+func extSyncMapStore(fr *frame, args []value) value {
+	fr.i.syncMap(args[0]).insert(fr.i, args[1], args[2])
+	return nil
+}
+
+func extSyncMapLoadOrStore(fr *frame, args []value) value {
+	m := fr.i.syncMap(args[0])
+	if v, ok := m.lookup(fr.i, args[1]); ok {
+		return tuple{v, true}
+	}
+	m.insert(fr.i, args[1], args[2])
+	return tuple{args[2], false}
+}
+
+func extSyncMapLoadAndDelete(fr *frame, args []value) value {
+	m := fr.i.syncMap(args[0])
+	v, ok := m.lookup(fr.i, args[1])
+	if !ok {
+		return tuple{iface{}, false}
+	}
+	m.delete(fr.i, args[1])
+	return tuple{v, true}
+}
+
+func extSyncMapDelete(fr *frame, args []value) value {
+	fr.i.syncMap(args[0]).delete(fr.i, args[1])
+	return nil
+}
+
+func extSyncMapRange(fr *frame, args []value) value {
+	it := fr.i.syncMap(args[0]).iter(fr.i)
+	for {
+		t := it.next()
+		if !t[0].(bool) {
+			return nil
+		}
+		r := call(fr.i, fr, token.NoPos, args[1], []value{t[1], t[2]})
+		if !fr.i.decide(r, BrIf, "sync.Map.Range callback") {
+			return nil
+		}
+	}
+}
+
+func extAtomicLoad(fr *frame, args []value) value {
+	p := args[0].(*value)
+	if p == nil {
+		panic(runtimePanic{"runtime error: invalid memory address or nil pointer dereference"})
+	}
+	return *p
+}
+
+func extAtomicStore(fr *frame, args []value) value {
+	p := args[0].(*value)
+	if p == nil {
+		panic(runtimePanic{"runtime error: invalid memory address or nil pointer dereference"})
+	}
+	*p = args[1]
+	return nil
+}
+
+func extAtomicAdd(fr *frame, args []value) value {
+	p := args[0].(*value)
+	*p = fr.i.binop(token.ADD, nil, *p, args[1])
+	return *p
+}
+
+func extAtomicCAS(fr *frame, args []value) value {
+	p := args[0].(*value)
+	if fr.i.decide(fr.i.equalsV(nil, *p, args[1]), BrIf, "atomic CAS") {
+		*p = args[2]
+		return true
+	}
+	return false
+}
+
+func extAtomicSwap(fr *frame, args []value) value {
+	p := args[0].(*value)
+	old := *p
+	*p = args[1]
+	return old
+}
+
+// ---------------------------------------------------------------------------
+// sort
+
+// extSortSlice sorts with a stable insertion sort calling the program's own
+// less closure, so comparisons on symbolic data are recorded decisions.
+func extSortSlice(fr *frame, args []value) value {
+	x := args[0].(iface).v.([]value)
+	less := args[1]
+	lt := func(a, b int) bool {
+		r := call(fr.i, fr, token.NoPos, less, []value{a, b})
+		return fr.i.decide(r, BrIf, "sort.Slice less")
+	}
+	for a := 1; a < len(x); a++ {
+		for b := a; b > 0 && lt(b, b-1); b-- {
+			x[b], x[b-1] = x[b-1], x[b]
+		}
+	}
+	return nil
+}
+
+// ---------------------------------------------------------------------------
+// strings / bytes
+
+func extBuilderString(fr *frame, args []value) value {
+	p := args[0].(*value)
+	if p == nil {
+		panic(runtimePanic{"runtime error: invalid memory address or nil pointer dereference"})
+	}
+	st := (*p).(structure)
+	// type Builder struct { addr *Builder; buf []byte }
+	buf := st[1].([]value)
+	return bytesToStr(buf)
+}
+
+func (i *interpreter) indexByteGeneric(n int, at func(k int) value, c value) value {
+	for k := 0; k < n; k++ {
+		if i.decide(i.binop(token.EQL, types.Typ[types.Uint8], at(k), c), BrIf, "IndexByte") {
+			return k
 		}
 	}
 	return -1
 }
 
-func ext۰math۰Float64frombits(fr *frame, args []value) value {
-	return math.Float64frombits(args[0].(uint64))
+func extStringsIndexByte(fr *frame, args []value) value {
+	s, _ := strParts(args[0])
+	return fr.i.indexByteGeneric(len(s), func(k int) value { return byteAt(args[0], k) }, args[1])
 }
 
-func ext۰math۰Float64bits(fr *frame, args []value) value {
-	return math.Float64bits(args[0].(float64))
+func extBytesIndexByte(fr *frame, args []value) value {
+	b := args[0].([]value)
+	return fr.i.indexByteGeneric(len(b), func(k int) value { return b[k] }, args[1])
 }
 
-func ext۰math۰Float32frombits(fr *frame, args []value) value {
-	return math.Float32frombits(args[0].(uint32))
-}
-
-func ext۰math۰Abs(fr *frame, args []value) value {
-	return math.Abs(args[0].(float64))
-}
-
-func ext۰math۰Copysign(fr *frame, args []value) value {
-	return math.Copysign(args[0].(float64), args[1].(float64))
-}
-
-func ext۰math۰Exp(fr *frame, args []value) value {
-	return math.Exp(args[0].(float64))
-}
-
-func ext۰math۰Float32bits(fr *frame, args []value) value {
-	return math.Float32bits(args[0].(float32))
-}
-
-func ext۰math۰Min(fr *frame, args []value) value {
-	return math.Min(args[0].(float64), args[1].(float64))
-}
-
-func ext۰math۰NaN(fr *frame, args []value) value {
-	return math.NaN()
-}
-
-func ext۰math۰IsNaN(fr *frame, args []value) value {
-	return math.IsNaN(args[0].(float64))
-}
-
-func ext۰math۰Inf(fr *frame, args []value) value {
-	return math.Inf(args[0].(int))
-}
-
-func ext۰math۰Ldexp(fr *frame, args []value) value {
-	return math.Ldexp(args[0].(float64), args[1].(int))
-}
-
-func ext۰math۰Log(fr *frame, args []value) value {
-	return math.Log(args[0].(float64))
-}
-
-func ext۰math۰Sqrt(fr *frame, args []value) value {
-	return math.Sqrt(args[0].(float64))
-}
-
-func ext۰runtime۰Breakpoint(fr *frame, args []value) value {
-	runtime.Breakpoint()
-	return nil
-}
-
-func ext۰sort۰Ints(fr *frame, args []value) value {
-	x := args[0].([]value)
-	sort.Slice(x, func(i, j int) bool {
-		return x[i].(int) < x[j].(int)
-	})
-	return nil
-}
-func ext۰sort۰Strings(fr *frame, args []value) value {
-	x := args[0].([]value)
-	sort.Slice(x, func(i, j int) bool {
-		return x[i].(string) < x[j].(string)
-	})
-	return nil
-}
-func ext۰sort۰Float64s(fr *frame, args []value) value {
-	x := args[0].([]value)
-	sort.Slice(x, func(i, j int) bool {
-		return x[i].(float64) < x[j].(float64)
-	})
-	return nil
-}
-
-func ext۰strconv۰Atoi(fr *frame, args []value) value {
-	i, e := strconv.Atoi(args[0].(string))
-	if e != nil {
-		return tuple{i, iface{fr.i.runtimeErrorString, e.Error()}}
+func extStringsIndex(fr *frame, args []value) value {
+	s, ts := strParts(args[0])
+	sub, tsub := strParts(args[1])
+	if ts == nil && tsub == nil {
+		return strings.Index(s, sub)
 	}
-	return tuple{i, iface{}}
-}
-func ext۰strconv۰Itoa(fr *frame, args []value) value {
-	return strconv.Itoa(args[0].(int))
-}
-func ext۰strconv۰FormatFloat(fr *frame, args []value) value {
-	return strconv.FormatFloat(args[0].(float64), args[1].(byte), args[2].(int), args[3].(int))
-}
-
-func ext۰strings۰Count(fr *frame, args []value) value {
-	return strings.Count(args[0].(string), args[1].(string))
-}
-
-func ext۰strings۰EqualFold(fr *frame, args []value) value {
-	return strings.EqualFold(args[0].(string), args[1].(string))
-}
-func ext۰strings۰IndexByte(fr *frame, args []value) value {
-	return strings.IndexByte(args[0].(string), args[1].(byte))
-}
-
-func ext۰strings۰Index(fr *frame, args []value) value {
-	return strings.Index(args[0].(string), args[1].(string))
-}
-
-func ext۰strings۰Replace(fr *frame, args []value) value {
-	// func Replace(s, old, new string, n int) string
-	s := args[0].(string)
-	new := args[1].(string)
-	old := args[2].(string)
-	n := args[3].(int)
-	return strings.Replace(s, old, new, n)
-}
-
-func ext۰strings۰ToLower(fr *frame, args []value) value {
-	return strings.ToLower(args[0].(string))
-}
-
-func ext۰runtime۰GOMAXPROCS(fr *frame, args []value) value {
-	// Ignore args[0]; don't let the interpreted program
-	// set the interpreter's GOMAXPROCS!
-	return runtime.GOMAXPROCS(0)
-}
-
-func ext۰runtime۰Goexit(fr *frame, args []value) value {
-	// TODO(adonovan): don't kill the interpreter's main goroutine.
-	runtime.Goexit()
-	return nil
-}
-
-func ext۰runtime۰GOROOT(fr *frame, args []value) value {
-	return runtime.GOROOT()
-}
-
-func ext۰runtime۰GC(fr *frame, args []value) value {
-	runtime.GC()
-	return nil
-}
-
-func ext۰runtime۰Gosched(fr *frame, args []value) value {
-	runtime.Gosched()
-	return nil
-}
-
-func ext۰runtime۰NumCPU(fr *frame, args []value) value {
-	return runtime.NumCPU()
-}
-
-func ext۰time۰Sleep(fr *frame, args []value) value {
-	time.Sleep(time.Duration(args[0].(int64)))
-	return nil
-}
-
-func ext۰os۰Getenv(fr *frame, args []value) value {
-	name := args[0].(string)
-	switch name {
-	case "GOSSAINTERP":
-		return "1"
-	}
-	return os.Getenv(name)
-}
-
-func ext۰os۰Exit(fr *frame, args []value) value {
-	panic(exitPanic(args[0].(int)))
-}
-
-func ext۰unicode۰utf8۰DecodeRuneInString(fr *frame, args []value) value {
-	r, n := utf8.DecodeRuneInString(args[0].(string))
-	return tuple{r, n}
-}
-
-// A fake function for turning an arbitrary value into a string.
-// Handles only the cases needed by the tests.
-// Uses same logic as 'print' built-in.
-func ext۰fmt۰Sprint(fr *frame, args []value) value {
-	buf := new(bytes.Buffer)
-	wasStr := false
-	for i, arg := range args[0].([]value) {
-		x := arg.(iface).v
-		_, isStr := x.(string)
-		if i > 0 && !wasStr && !isStr {
-			buf.WriteByte(' ')
+	for k := 0; k+len(sub) <= len(s); k++ {
+		var tk []*smt.Term
+		if ts != nil {
+			tk = ts[k : k+len(sub)]
 		}
-		wasStr = isStr
-		buf.WriteString(toString(x))
+		if fr.i.decide(strEq(s[k:k+len(sub)], tk, sub, tsub), BrIf, "strings.Index") {
+			return k
+		}
 	}
-	return buf.String()
+	return -1
+}
+
+func extCountString(fr *frame, args []value) value {
+	s, _ := strParts(args[0])
+	n := 0
+	for k := 0; k < len(s); k++ {
+		if fr.i.decide(fr.i.binop(token.EQL, types.Typ[types.Uint8], byteAt(args[0], k), args[1]), BrIf, "Count") {
+			n++
+		}
+	}
+	return n
+}
+
+func extCountBytes(fr *frame, args []value) value {
+	b := args[0].([]value)
+	n := 0
+	for k := range b {
+		if fr.i.decide(fr.i.binop(token.EQL, types.Typ[types.Uint8], b[k], args[1]), BrIf, "Count") {
+			n++
+		}
+	}
+	return n
+}
+
+func extMakeNoZero(fr *frame, args []value) value {
+	n := fr.i.intS(args[0], "MakeNoZero")
+	if n < 0 || n > 1<<26 {
+		panic(runtimePanic{"runtime error: makeslice: len out of range"})
+	}
+	b := make([]value, n)
+	for k := range b {
+		b[k] = byte(0)
+	}
+	return b
 }
